@@ -166,6 +166,8 @@ type Pod struct {
 	Groups     []string `json:"groups,omitempty"` // GPU groups of an active sharer
 	CreatedMin int      `json:"createdMin,omitempty"`
 	Scheduler  string   `json:"scheduler,omitempty"` // other scheduler's pod when set
+	// Incarnation > 0: the pod object was deleted and created again under the same name (new UID), as a StatefulSet does
+	Incarnation int `json:"incarnation,omitempty"`
 }
 
 // Claim is one DRA resource claim of a pod: Count devices of a device class. Devices is set for pods that
@@ -370,6 +372,13 @@ func (w *World) BuildDRA(o *Objects) {
 			Spec:       resourceapi.DeviceClassSpec{Selectors: []resourceapi.DeviceSelector{{CEL: &resourceapi.CELDeviceSelector{Expression: fmt.Sprintf("device.driver == %q", c)}}}},
 		})
 	}
+}
+
+func podUID(p *Pod) types.UID {
+	if p.Incarnation > 0 {
+		return types.UID(fmt.Sprintf("uid-%s-i%d", p.Name, p.Incarnation))
+	}
+	return types.UID("uid-" + p.Name)
 }
 
 func ptrTo[T any](v T) *T { return &v }
@@ -611,7 +620,7 @@ func BuildPod(g *Group, p *Pod, now time.Time) *v1.Pod {
 		sched = p.Scheduler
 	}
 	pod := &v1.Pod{
-		ObjectMeta: metav1.ObjectMeta{Name: p.Name, Namespace: Namespace, UID: types.UID("uid-" + p.Name), Labels: labels, Annotations: ann,
+		ObjectMeta: metav1.ObjectMeta{Name: p.Name, Namespace: Namespace, UID: podUID(p), Labels: labels, Annotations: ann,
 			CreationTimestamp: metav1.NewTime(now.Add(-time.Duration(p.CreatedMin) * time.Minute))},
 		Spec: v1.PodSpec{SchedulerName: sched, NodeSelector: p.NodeSelector},
 	}
